@@ -7,6 +7,57 @@ From PG Require Import Common.Tactics Common.Tr Model.ScopesBase Gen.ScopeDefs M
 Local Ltac split_saved sv :=
   destruct sv as [|?x1 [|?x2 [|?x3 [|?x4 ?r]]]]; simpl; auto.
 
+(* --- what the generated two-store managers compute -------------------------------------------------- *)
+Lemma dyn_enter_thread : forall a l g,
+  dyn_enter v_true a (l, g) =
+  if is_none (tl_get g_dynamic_evaluate v_none g)
+  then Some ((tl_set k_dynamic_evaluate a l, g), [tl_has k_dynamic_evaluate l; tl_get k_dynamic_evaluate v_none l; v_false])
+  else None.
+Proof.
+  intros. unfold dyn_enter, lift2_enter, dynamic_evaluate_enter. cbn [fst snd truthy v_true].
+  destruct (is_none (tl_get g_dynamic_evaluate v_none g)); reflexivity.
+Qed.
+Lemma dyn_exit_thread : forall a sv l g,
+  dyn_exit v_true a sv (l, g) =
+  match sv with
+  | [had; old; _] => if truthy had then (tl_set k_dynamic_evaluate old l, g) else (tl_del k_dynamic_evaluate l, g)
+  | _ => (l, g)
+  end.
+Proof.
+  intros. unfold dyn_exit, lift2_exit, dynamic_evaluate_exit. cbn [fst snd truthy v_true negb].
+  destruct sv as [|h [|o [|e [|x r]]]]; try reflexivity.
+  destruct (truthy h); match goal with |- (if ?c then _ else _) = _ => destruct c end; reflexivity.
+Qed.
+Lemma dyn_enter_global : forall a l g,
+  dyn_enter v_false a (l, g) = Some ((l, tl_set g_dynamic_evaluate a g), [v_false; tl_get g_dynamic_evaluate v_none g; v_false]).
+Proof. intros. unfold dyn_enter, lift2_enter, dynamic_evaluate_enter. cbn [fst snd truthy v_false]. reflexivity. Qed.
+Lemma dyn_exit_global : forall a sv l g,
+  dyn_exit v_false a sv (l, g) =
+  match sv with [_; old; _] => (l, tl_set g_dynamic_evaluate old g) | _ => (l, g) end.
+Proof.
+  intros. unfold dyn_exit, lift2_exit, dynamic_evaluate_exit. cbn [fst snd truthy v_false negb].
+  destruct sv as [|h [|o [|e [|x r]]]]; try reflexivity.
+  match goal with |- (if ?c then _ else _) = _ => destruct c end; reflexivity.
+Qed.
+
+(* load_types_for_deserialization pushes the merged dict; on an ill-typed slot it pushes nothing (and pops nothing) *)
+Lemma loadtypes_enter_cases : forall a l g,
+  (exists d, loadtypes_enter a (l, g) = Some ((l, tl_push g_ondemand_types (VD d) g), [VD d]) /\
+             VD d = py_update (tl_peek g_ondemand_types v_empty_dict g) a)
+  \/ (loadtypes_enter a (l, g) = Some ((l, g), [v_none]) /\ forall s, st_get g_ondemand_types g <> Some (VS s)).
+Proof.
+  intros. unfold loadtypes_enter, lift2_enter, load_types_enter, tl_get, tl_peek, py_copy, py_last. cbn [fst snd].
+  destruct (st_get g_ondemand_types g) as [[[]|[|]|[|]]|] eqn:E; cbn [truthy v_none v_empty_dict];
+    repeat match goal with |- context [if ?b then _ else _] => destruct b end;
+    unfold v_empty_dict, v_none;
+    first [ left; match goal with |- context [py_update (VD ?d) a] => destruct (py_update_dict d a) as [d' Hd']; rewrite Hd' end;
+            eexists; split; reflexivity
+          | right; split; [unfold py_update, tl_push; reflexivity | congruence] ].
+Qed.
+Lemma loadtypes_exit_spec : forall a sv l g,
+  loadtypes_exit a sv (l, g) = match sv with [_] => (l, tl_pop g_ondemand_types g) | _ => (l, g) end.
+Proof. intros. unfold loadtypes_exit, lift2_exit, load_types_exit. cbn [fst snd]. destruct sv as [|x [|y r]]; reflexivity. Qed.
+
 (* --- R1: every exit maps equivalent states to equivalent states ------------------------------------- *)
 Lemma tl_set_congr : forall cls k i v s t, seq_at cls k s t -> seq_at cls k (tl_set i v s) (tl_set i v t).
 Proof. intros. apply nrm_set_congr; auto. Qed.
@@ -55,9 +106,12 @@ Proof.
   - split; auto. apply tl_pop_congr; auto.
   - split; auto. apply tl_pop_congr; auto.
   - split; auto. apply timeit_exit_congr; auto.
-  - unfold dyn_exit. split_saved sv. destruct (truthy x1); simpl; split; auto; congr_tac.
-  - unfold dyng_exit. split_saved sv. split; auto. congr_tac.
-  - unfold loadtypes_exit; simpl. split; auto. apply tl_pop_congr; auto.
+  - destruct s as [l g], t as [l' g']. rewrite !dyn_exit_thread. cbn [fst snd] in *.
+    destruct sv as [|h [|o [|e [|x r]]]]; cbn [fst snd]; auto. destruct (truthy h); cbn [fst snd]; split; auto; congr_tac.
+  - destruct s as [l g], t as [l' g']. rewrite !dyn_exit_global. cbn [fst snd] in *.
+    destruct sv as [|h [|o [|e [|x r]]]]; cbn [fst snd]; auto. split; auto. congr_tac.
+  - destruct s as [l g], t as [l' g']. rewrite !loadtypes_exit_spec. cbn [fst snd] in *.
+    destruct sv as [|x [|y r]]; cbn [fst snd]; auto. split; auto. apply tl_pop_congr; auto.
 Qed.
 
 (* --- R2: exit after enter gives back the state ---------------------------------------------------------- *)
@@ -227,21 +281,24 @@ Proof.
   - split; [eapply detour_restores; eauto | apply seq_at_refl].
   - split; [eapply timeit_restores; eauto | apply seq_at_refl].
   - (* dynamic_evaluate, per thread: exact *)
-    unfold dyn_enter in H. cbn [fst snd] in H.
-    destruct (negb (is_none (tl_get g_dynamic_evaluate v_none g))); try discriminate.
-    apply some_pair_inj in H. destruct H as [<- <-].
-    unfold dyn_exit, tl_has, tl_get, tl_set, tl_del. cbn [fst snd].
+    rewrite dyn_enter_thread in H.
+    destruct (is_none (tl_get g_dynamic_evaluate v_none g)); try discriminate.
+    apply some_pair_inj in H. destruct H as [<- <-]. rewrite dyn_exit_thread.
+    unfold tl_has, tl_get, tl_set, tl_del.
     destruct (st_get k_dynamic_evaluate l) eqn:E; cbn [truthy v_true v_false fst snd]; rewrite st_set_restore by assumption; split; apply seq_at_refl.
   - (* dynamic_evaluate, process wide *)
-    unfold dyng_enter in H. apply some_pair_inj in H. destruct H as [<- <-]. unfold dyng_exit. cbn [fst snd]. split; [apply seq_at_refl|].
+    rewrite dyn_enter_global in H. apply some_pair_inj in H. destruct H as [<- <-]. rewrite dyn_exit_global. cbn [fst snd].
+    split; [apply seq_at_refl|].
     unfold tl_set. rewrite st_set_set. unfold tl_get.
     destruct (st_get g_dynamic_evaluate g) eqn:E.
     + rewrite <- E. rewrite st_set_get_id. apply seq_at_refl.
     + apply nrm_set_equiv. rewrite E. reflexivity.
   - (* load_types_for_deserialization *)
-    unfold loadtypes_enter in H. apply some_pair_inj in H. destruct H as [<- <-]. unfold loadtypes_exit. cbn [fst snd]. split; [apply seq_at_refl|].
-    destruct (tl_peek_dict g_ondemand_types g []) as [d Hd]. unfold v_empty_dict. rewrite Hd. unfold py_copy.
-    destruct (py_update_dict d a) as [d' Hd']. rewrite Hd'. apply tl_pop_push. reflexivity.
+    destruct (loadtypes_enter_cases a l g) as [[d [E _]]|[E N]]; rewrite E in H;
+      apply some_pair_inj in H; destruct H as [<- <-]; rewrite loadtypes_exit_spec; cbn [fst snd]; (split; [apply seq_at_refl|]).
+    + apply tl_pop_push. reflexivity.
+    + unfold tl_pop. destruct (st_get g_ondemand_types g) as [[x|x|[|x r]]|] eqn:G; try apply seq_at_refl.
+      exfalso. eapply N; eauto.
 Qed.
 
 (* --- the theorem: any program, any depth, normal and exceptional exits, failed enters ---------------------- *)
@@ -279,10 +336,10 @@ Proof.
     + apply lift_enter_some in H; destruct H as [l1 [E ->]]; cbn [fst snd] in *; unfold lift_exit; cbn [fst snd].
       rewrite (value_scope_restores _ _ _ _ _ _ E). reflexivity.
     + apply some_pair_inj in H. destruct H as [<- <-]. reflexivity.
-  - unfold dyn_enter in H. cbn [fst snd] in H.
-    destruct (negb (is_none (tl_get g_dynamic_evaluate v_none g))); try discriminate.
-    apply some_pair_inj in H. destruct H as [<- <-].
-    unfold dyn_exit, tl_has, tl_get, tl_set, tl_del. cbn [fst snd].
+  - rewrite dyn_enter_thread in H.
+    destruct (is_none (tl_get g_dynamic_evaluate v_none g)); try discriminate.
+    apply some_pair_inj in H. destruct H as [<- <-]. rewrite dyn_exit_thread.
+    unfold tl_has, tl_get, tl_set, tl_del.
     destruct (st_get k_dynamic_evaluate l) eqn:E; cbn [truthy v_true v_false fst snd]; rewrite st_set_restore by assumption; reflexivity.
 Qed.
 
